@@ -18,14 +18,15 @@ class StructShim:
     """exact model of struct.pack/unpack for big-endian unsigned formats"""
     error = _struct.error
     SIZES = {"B": 1, "H": 2, "I": 4, "L": 4, "Q": 8}
+    SIGNED = {"b": 1, "h": 2, "i": 4, "l": 4, "q": 8}       # unpack only (two's complement)
     calcsize = staticmethod(_struct.calcsize)
 
     @staticmethod
-    def _fmt(fmt):
+    def _fmt(fmt, signed_ok=False):
         if fmt[0] not in ">!":
             raise Inconclusive("struct format %r not modelled" % fmt)
         for c in fmt[1:]:
-            if c not in StructShim.SIZES:
+            if c not in StructShim.SIZES and not (signed_ok and c in StructShim.SIGNED):
                 raise Inconclusive("struct format %r not modelled" % fmt)
         return fmt[1:]
 
@@ -51,14 +52,18 @@ class StructShim:
     def unpack(fmt, data):
         if not is_sym(data):
             return _struct.unpack(fmt, data)
-        codes = StructShim._fmt(fmt)
-        need = sum(StructShim.SIZES[c] for c in codes)
+        codes = StructShim._fmt(fmt, signed_ok=True)
+        size = lambda c: StructShim.SIZES.get(c) or StructShim.SIGNED[c]
+        need = sum(size(c) for c in codes)
         if len(data) != need:
             raise _struct.error("unpack requires a buffer of %d bytes" % need)
         res, off = [], 0
         for c in codes:
-            n = StructShim.SIZES[c]
-            res.append(int_from_bytes(data[off:off + n]))
+            n = size(c)
+            v = int_from_bytes(data[off:off + n])
+            if c in StructShim.SIGNED and bool(lift(v) >= 2 ** (8 * n - 1)):
+                v = v - 2 ** (8 * n)
+            res.append(v)
             off += n
         return tuple(res)
 
